@@ -154,6 +154,26 @@ def _install():
                 shared = [x for x in self.internal_big_edges if set(x.own_cells) == set(b.own_cells) and len(x.vertices) > 2]
                 if len(shared) == 1 and (got is not b or got2 is not b):
                     mon.fail("lookup", "lookup by its two cells returns the interface", path=b.get_vertices_ids()[:6])
+        # the look-up is by the two cells, not by the classification: an interface with an interior point that separates two
+        # cells but runs from outline to outline (bridges, two-cell tissues) is found as well
+        int_ids = {id(x) for x in self.internal_big_edges}
+        for b in self.big_edges.values():
+            if id(b) in int_ids or len(b.vertices) <= 2:
+                continue
+            cs = t.cells_of_path(tuple(b.get_vertices_ids()))
+            if len(cs) != 2:
+                continue
+            c1_, c2_ = sorted(cs)
+            shared_ = [x for x in self.big_edges.values() if len(x.vertices) > 2
+                       and t.cells_of_path(tuple(x.get_vertices_ids())) == cs]
+            if len(shared_) != 1:
+                continue
+            mon.count("clause:lookup-external")
+            try:
+                if self.get_big_edge_by_cells(c1_, c2_) is not b or self.get_big_edge_by_cells(c2_, c1_) is not b:
+                    mon.fail("lookup", "lookup by its two cells returns the interface", path=b.get_vertices_ids()[:6], external=True)
+            except Exception as exc:
+                mon.fail("lookup-raises", "lookup by the two cells", exc=repr(exc)[:200], external=True)
         holes = 0
         mon.last = {"cells": len(self.cells), "paths": len(ref_paths), "internal": len(ref_int),
                     "junctions": len(t.junctions),
@@ -259,6 +279,13 @@ def run_case(case):
                     if lens is not None:
                         at = lens
                         mon.count("tissue:with-lens")
+                        lens2 = tissue.with_lens(np.random.default_rng([len(at.J), 11]), at)
+                        if lens2 is not None and len(at.J) % 2 == 0 and frozenset(lens2.meta["lens"][0]) != frozenset(at.meta["lens"][0]):
+                            # a second lens on another interface of the same tissue
+                            first_ = at.meta["lens"]
+                            at = lens2
+                            at.meta["lens2"] = first_
+                            mon.count("tissue:with-two-lenses")
                 kspec = (0, 15) if rng.random() < 0.5 else int(rng.integers(0, 16))
                 if at.meta.get("lens") and np.random.default_rng([len(at.J), 9]).random() < 0.6:
                     # the lens side as a TWO-POINT interface (its two ends then share three cells)
@@ -266,6 +293,8 @@ def run_case(case):
                     kr = np.random.default_rng([len(at.J), len(at.E), 3])
                     kspec = {k_: int(kr.integers(lo, hi + 1)) for k_ in at.E}
                     kspec[frozenset(at.meta["lens"][0])] = 0
+                    if at.meta.get("lens2"):
+                        kspec[frozenset(at.meta["lens2"][0])] = 0
                 r = realise.realise(at, k=kspec, rng=rng,
                                     relabel=bool(rng.integers(2)), shifts=True, flips="random", edge_dirs=True,
                                     cell_order=bool(rng.integers(2)), spacing="random" if rng.random() < 0.5 else "uniform")
